@@ -50,8 +50,42 @@ pub struct Outcome {
     pub root: PathBuf,
 }
 
+fn ancestors_clean(dir: &Path) -> bool {
+    let mut d: Option<&Path> = Some(dir);
+    while let Some(p) = d {
+        for n in ["stylua.toml", ".stylua.toml", ".editorconfig", ".styluaignore", ".ignore", ".gitignore", ".git"] {
+            if p.join(n).exists() {
+                return false;
+            }
+        }
+        d = p.parent();
+    }
+    true
+}
+
+/// a run-private scratch directory outside /repo and /verif whose ancestors carry no configuration / ignore file
 pub fn scratch_root() -> PathBuf {
-    std::env::temp_dir().join(format!("mc-e2-{}", std::process::id()))
+    static ROOT: std::sync::OnceLock<PathBuf> = std::sync::OnceLock::new();
+    ROOT.get_or_init(|| {
+        let mut cands: Vec<PathBuf> = vec![std::env::temp_dir(), PathBuf::from("/tmp"), PathBuf::from("/var/tmp"), PathBuf::from("/dev/shm")];
+        cands.retain(|c| c.is_dir() && !c.starts_with("/verif") && !c.starts_with("/repo"));
+        let base = cands.iter().find(|c| ancestors_clean(c)).cloned().unwrap_or_else(std::env::temp_dir);
+        base.join(format!("mc-e2-{}", std::process::id()))
+    })
+    .clone()
+}
+
+/// does `chattr +i` make a file unwritable here? (needs root and a file system that supports the attribute)
+pub fn immutable_supported() -> bool {
+    let root = scratch_root().join("probe-immutable");
+    let _ = std::fs::create_dir_all(&root);
+    let f = root.join("f");
+    let _ = std::fs::write(&f, b"x");
+    let ok = Command::new("chattr").arg("+i").arg(&f).stderr(Stdio::null()).status().map(|s| s.success()).unwrap_or(false);
+    let blocked = ok && std::fs::write(&f, b"y").is_err();
+    let _ = Command::new("chattr").arg("-i").arg(&f).stderr(Stdio::null()).status();
+    let _ = std::fs::remove_dir_all(&root);
+    blocked
 }
 
 fn snapshot(root: &Path) -> Snapshot {
@@ -670,7 +704,12 @@ pub fn c13(thorough: bool, stats: &mut Stats) -> Vec<Failure> {
 }
 
 pub fn c14(thorough: bool, stats: &mut Stats) -> Vec<Failure> {
-    let alpha = [Kind::Unformatted, Kind::Formatted, Kind::Unparseable, Kind::VerifyFail, Kind::Crash, Kind::InvalidUtf8, Kind::Immutable];
+    let mut alpha = vec![Kind::Unformatted, Kind::Formatted, Kind::Unparseable, Kind::VerifyFail, Kind::Crash, Kind::InvalidUtf8, Kind::Immutable];
+    if !immutable_supported() {
+        // without a working immutable attribute the "unwritable" kind cannot be produced: leave it out and say so
+        alpha.retain(|k| *k != Kind::Immutable);
+        stats.machinery.insert("C14: `chattr +i` has no effect here, the unwritable-file kind is left out".into(), 1);
+    }
     let mut scs = vec![];
     for ks in multisets(&alpha, if thorough { 4 } else { 3 }, true) {
         for layout in ["flat", "dir", "subdir"] {
